@@ -120,11 +120,13 @@ type keptResult struct {
 }
 
 func newWorld(c mac.Cipher, kenc, kmac, ssc []byte) (*world, error) {
+	// (who owns the key / counter buffers passed to the constructors afterwards is not something the
+	// property states, so they are handed over as private copies and left alone)
 	lib, err := iso7816.NewSecureMessaging(libAlg(c), bytes.Clone(kenc), bytes.Clone(kmac))
 	if err != nil {
 		return nil, err
 	}
-	if err := lib.SetSSC(ssc); err != nil {
+	if err := lib.SetSSC(bytes.Clone(ssc)); err != nil {
 		return nil, err
 	}
 	w := &world{cipher: c, kenc: kenc, kmac: kmac, lk: &link{}, chip: sm.New(c, kenc, kmac, ssc)}
